@@ -94,7 +94,12 @@ ENTRIES = {
              "compared bit for bit and with the extracted model. In addition BayesianModel.add_observations, SparseDrugCombo._add_observations, the legacy _update (with the invariant that its index dictionaries are the positions of each id after any number of calls), SparseDrugComboInteraction._add_observations and create_single_treatment_effect_map are re-translated from /repo's source on every run and C04_model_is_source_* prove the model equal to the translations; the translation determines the interaction model's repair switches. train_model.main is re-translated too: the model is trained on subset_observed() of the loaded screen (C04_model_is_source_cli_train_model).",
         note="Trusted: Coq kernel, extraction, driver, harness; the float32 cast is data; downstream numerics are compared implementation-side "
              "only with a `.observations` read tripwire; fast_mvn's unseeded generator is replaced by a seeded one (C18's subject). The three "
-             "interaction-model defects found here were repaired in /repo (fix: 49949ee); the harness probes which switch setting the code implements."),
+             "interaction-model defects found here were repaired in /repo (fix: 49949ee); the harness probes which switch setting the code implements. "
+             "Round 2: the downstream clause is proved of the composed stage models and of the translated score_chunk / select_next_plate (C06, C16) / "
+             "distance pipeline (C07) / mcmc_step / the four main()s (C04_source_*_noninterference, C04_loop_noninterference); all four CLI steps run "
+             "relationally through files with both MCMC models and KPerSample; ComboGridFactorModel._add_observations is linked and checked. Known "
+             "finding (latent: no shipped model reads it): subset_observed().single_treatment_effects is sliced from a table the parent screen computes "
+             "from ALL rows, masked wells included (signature handed-view-single_treatment_effects)."),
     "C05": dict(
         text="Theorems (every ln/exp oracle, all n_thetas, all plate lists incl. size-0/1 plates and a single plate, all means/variances/"
              "matrices/distance_factor): the vectorised kernel on 0/NaN-padded arrays (and on ANY representation of the plates) equals the direct "
@@ -177,7 +182,9 @@ ENTRIES = {
              "the tree implements is detected from behaviour; the three former witnesses are corpus cases. The prepare_retrospective_simulation CLI main() is run in-process with random generator / smoother / initial-plate options and the training / test screens it writes must agree on every id, and train_model.main() run on the latest stage with observed rows must hand the model exactly the ids of the screen it loaded (implementation-only predicates). C03_source_variant_unique: the translation of reveal_plates / mask_screen / unmask_screen (C12 link) determines which call sites pass the mappings on. prepare_retrospective_simulation.main and reveal_plate.main are re-translated too (C03_model_is_source_cli_*): the order filter / initial plate or mask / generator / random reveal / smoother / hold-out last comes from the source.",
         note="Trusted: Coq kernel, extraction, OCaml driver, harness. HDF5 storage is modelled as the identity. The hold-out selection is recorded "
              "from the real rng. The renumbering defect found here (reveal/mask/unmask dropped the mappings) was repaired in /repo (fix: e414171). "
-             "predict_stable is a corollary stated in prose (predictions index embeddings by id; C09 proves row-wise prediction)."),
+             "Round 2: the prediction clause is a theorem (C03_predict_stable*: two screens frozen to one parent predict alike through C09's model and the "
+             "translated predict_*), the hold-out split is linked at the mapping level (C03_model_is_source_holdout), and real thetas from train_model.main "
+             "are predicted over six stages and through evaluate_model.main before / after reveal_plate.main."),
     "C08": dict(
         text="Theorems (all datasets, all states, all draw results, any embedding size): for each Gaussian block (W0, V0, W, V2, V1) the "
              "arguments of the draw are exactly the precision and linear term of the quadratic form energy(block:=x) - energy(block:=0) of an "
@@ -202,7 +209,9 @@ ENTRIES = {
              "reveal_plate and extract_screen_metadata CLIs. In addition reveal_plates, mask_screen, unmask_screen, Screen.set_observed and the observation-mask statements of Screen.__init__ are re-translated from /repo's source into Gallina on every run and C12_model_is_source_* prove the model equal to the translations. reveal_plate.main and extract_screen_metadata.main are re-translated too (C12_model_is_source_cli_*).",
         note="Trusted: Coq kernel, extraction, driver, harness. Observation values cross as float64 bit patterns. reveal_plates takes one screen and "
              "uses that screen's own plate ids. set_observed is outside the atomicity clause (it performs no plate check). Independent of sample "
-             "and treatment ids."),
+             "and treatment ids. Known finding (round 2): the all-zero guard of reveal_plates looks at the UNION of the selected rows, so an all-zero plate "
+             "named together with a plate holding a non-zero value is revealed (reveal-zero-guard-is-joint; C12_reveal_refuses_zero_per_plate_refuted is the "
+             "witness about the translated source; the every-plate-zero and any-plate-NaN refusals are proved)."),
     "C19": dict(
         text="Coq model of nextflow/scripts/batchie.py (examine incl. its quirks, run_next_*, pipeline publications in adversarial order, crashes "
              "after any filesystem action or publication, operator deleting the named directory); resume correctness proved for EVERY crash "
